@@ -183,6 +183,20 @@ fn start_server(cfg: &Cfg, bin: &std::path::Path, args: &[std::ffi::OsString], e
     Proc::start_in(std::path::Path::new("/usr/bin/unshare"), &a, env, probe, Duration::from_secs(20), cwd)
 }
 
+/// A start right after a kill -9: the killed server's sockets may take a moment to go away (in a
+/// PID namespace the server dies when its launcher has died), so a failed start is tried again.
+fn restart_server(cfg: &Cfg, bin: &std::path::Path, args: &[std::ffi::OsString], env: &[(String, std::ffi::OsString)], probe: &[String], cwd: Option<&std::path::Path>) -> Result<Proc, String> {
+    let mut tries = 0;
+    loop {
+        tries += 1;
+        match start_server(cfg, bin, args, env, probe, cwd) {
+            Ok(p) => return Ok(p),
+            Err(_) if tries < 4 => std::thread::sleep(Duration::from_millis(300 * tries)),
+            Err(e) => return Err(e),
+        }
+    }
+}
+
 /// One configuration end to end; returns a violation message if any.
 fn run_cfg(cfg: &Cfg, bin: &std::path::Path, rng: &mut Rng, cov: &mut Cov) -> Result<Option<String>, String> {
     let dir = ScratchDir::new("c17");
@@ -411,16 +425,7 @@ fn run_cfg(cfg: &Cfg, bin: &std::path::Path, rng: &mut Rng, cov: &mut Cov) -> Re
     cfg2.listen_form = (cfg.listen_form + 1) % 3;
     cfg2.data_by_env = !cfg.data_by_env;
     let (args, env) = cfg2.launch(&given);
-    let mut tries = 0;
-    let started = loop {
-        tries += 1;
-        match start_server(cfg, bin, &args, &env, &cfg.addrs, cwd.as_deref()) {
-            Ok(p) => break Ok(p),
-            // (the killed server's sockets may take a moment to go away)
-            Err(_) if tries < 3 => std::thread::sleep(Duration::from_millis(400)),
-            Err(e) => break Err(e),
-        }
-    };
+    let started = restart_server(cfg, bin, &args, &env, &cfg.addrs, cwd.as_deref());
     let mut proc = match started {
         Ok(p) => p,
         Err(e) => {
@@ -471,7 +476,7 @@ fn run_cfg(cfg: &Cfg, bin: &std::path::Path, rng: &mut Rng, cov: &mut Cov) -> Re
             t.commit().map_err(|e| format!("{e:#}"))?;
         }
         let (args, env) = cfg.launch(&given);
-        let mut proc = start_server(cfg, bin, &args, &env, &cfg.addrs, cwd.as_deref()).map_err(|e| format!("restart: {e}"))?;
+        let mut proc = restart_server(cfg, bin, &args, &env, &cfg.addrs, cwd.as_deref()).map_err(|e| format!("restart: {e}"))?;
         let (r, raw) = call(&pick_addr(rng), client, &Req::AddVersion { parent, data: b"after-aging".to_vec() });
         proc.kill9();
         match r {
